@@ -151,7 +151,7 @@ def check_property(pid, spec, tier):
         results.append(run_job(pid, j, tier, h))
     violations, known_hits, inconclusive = [], [], []
     cov_jobs, samples = [], []
-    tot = dict(paths_ok=0, fail=0, abort=0, cut=0, crash=0, pruned=0, solver_calls=0, q_sat=0, q_unsat=0, by_norm=0, asserts=0, unknown=0, solver_s=0.0, forks=0)
+    tot = dict(div0_pruned=0, paths_ok=0, fail=0, abort=0, cut=0, crash=0, pruned=0, solver_calls=0, q_sat=0, q_unsat=0, by_norm=0, asserts=0, unknown=0, solver_s=0.0, forks=0)
     axioms = set()
     configs_all = 0
     nrep = 0
@@ -245,7 +245,7 @@ def check_property(pid, spec, tier):
                   configurations=configs_all,
                   solver_queries=tot["solver_calls"], queries_sat=tot["q_sat"], queries_unsat=tot["q_unsat"], decided_by_normal_form=tot["by_norm"],
                   unknown_overapproximated=tot["unknown"], solver_s=round(tot["solver_s"], 2),
-                  paths_cut=tot["cut"], paths_aborted=tot["abort"], paths_pruned_by_assumption=tot["pruned"],
+                  paths_dropped_at_exact_division_by_zero=tot["div0_pruned"], paths_cut=tot["cut"], paths_aborted=tot["abort"], paths_pruned_by_assumption=tot["pruned"],
                   axioms=sorted(axioms), jobs=cov_jobs, samples=samples or [dict(note="no completed path")],
                   known_findings=[k["what"] for k, _ in known_hits], counterexamples=violations, inconclusive=inconclusive,
                   exhaustive=False),
